@@ -70,9 +70,19 @@ func l2MemoryGuard(c *driver.Ctx) (stop func()) {
 			case <-time.After(50 * time.Millisecond):
 			}
 			metrics.Read(sample)
-			if h := sample[0].Value.Uint64(); h > 2<<30 {
-				c.Violation("termination", fmt.Sprintf("L2: the live heap of the child reached %d MiB while the batcher was running in-process (runs normally need < 100 MiB): a MergeSplit called by the batcher does not terminate", h>>20),
-					nil, "signal", "-", "sizer", "-", "class", "in-batcher")
+			h := sample[0].Value.Uint64()
+			c.ObserveMax("max:l2_child_live_heap_mib", int64(h>>20))
+			if h > 192<<20 {
+				sig := []string{"signal", "-", "sizer", "-", "qsizer", "-", "legacy", "-", "class", "in-batcher"}
+				what := ""
+				var w any
+				if cfg := currentL2.Load(); cfg != nil {
+					sig = []string{"signal", cfg.Signal, "sizer", cfg.Sizer, "qsizer", cfg.QueueSizer, "legacy", fmt.Sprint(cfg.Legacy), "class", "in-batcher"}
+					what = fmt.Sprintf(" [run in progress: %s, batcher sizer %s max_size %d, sending_queue sizer %s, deprecated WithBatcher %v]", cfg.Signal, cfg.Sizer, cfg.Max, cfg.QueueSizer, cfg.Legacy)
+					w = map[string]any{"config": cfg}
+				}
+				c.Violation("termination", fmt.Sprintf("L2: the live heap of the child reached %d MiB while the batcher was running in-process (runs normally need < 50 MiB, limit 192 MiB): a MergeSplit called by the batcher does not terminate%s", h>>20, what),
+					w, sig...)
 				time.Sleep(3 * time.Second) // let the driver's periodic flush write the verdict
 				os.Exit(3)
 			}
@@ -91,7 +101,7 @@ func main() {
 		Level: "exploration",
 		Rule: "L1: a case is (signal, sizer items|bytes, max_size drawn around 0/1/2/3/total±1/total/2/first±1/largest-indivisible-unit+{0,1,2,3,5,10,50}, sequence of 1..6 generated requests, keep-or-emit script) " +
 			"executed through Request.MergeSplit the way the batcher does; distinct by (signal, payload-shape list, sizer, max_size, request count); non-trivial when a call returned >= 2 requests or >= 2 requests were merged. " +
-			"L2: a run is (signal, sizer, min/max/flush_timeout, wait_for_result, deprecated WithBatcher or sending_queue::batch, 1..6 producers x 1..6 generated requests, export outcome and delay script); " +
+			"L2: a run is (signal, batcher sizer, min/max/flush_timeout, wait_for_result, sending_queue::batch (queue and batcher share the sizer items|bytes) or deprecated WithBatcher (items) alone or behind a queue sized in requests|items|bytes, 1..6 producers x 1..6 generated requests, export outcome and delay script); " +
 			"distinct by (config class, min, max, payload shapes, interleaving signature = hash of the sequence of consume-call/consume-return/export-begin/export-end events with actors); non-trivial when a request was spread over >= 2 batches or a batch held >= 2 requests.",
 		Assumptions: []string{
 			"the pdata protobuf codec is trusted: inputs are what Encoding.Unmarshal decodes from generated OTLP bytes, outputs are read back with Encoding.Marshal and decoded with the pdata unmarshaler",
